@@ -235,8 +235,8 @@ PROPS = {
                    '(units/cell.rs), rpds map laws (lookup after insert / in empty map); the numeric value of the decoded bits is the Kani-decided C05. Modest sizes: input end < usize::MAX. '
                    'magic, find (over a stand-in of memmem::find), nulbytestr and cstr (the bytes before the first zero byte, one Latin-1 character each) are under contract too, '
                    'and every parsing word of the word table is checked to be bound to the function with the stated contract (Rword + same_as). '
-                   'dump / dump-at leave the cursor and the stack alone (the dump text itself is assumed to print and return). bitstr-and/or/xor: operand shapes, stack discipline and result length only (the zip/cycle loop is an assumed helper).',
-        not_decided=['the text of dump / dump-at', 'the bit values of bitstr-and / bitstr-or / bitstr-xor'],
+                   'dump / dump-at leave the cursor and the stack alone (the dump text itself is assumed to print and return). bitstr-and/or/xor: operand shapes, stack discipline, result length AND every result bit (a[i] op b[i mod |b|]; the zip/cycle loop is spelled out by rule R22 and verified over Bits::next and the bit builder).',
+        not_decided=['the text of dump / dump-at'],
     ),
     'C07': dict(
         title='Binary construction is the inverse of binary parsing',
